@@ -155,6 +155,8 @@ def gen_spec(seed, avoid=(), missing=False):
             t['data'] = data
         else:
             seps = ch.below(6)
+            if len(seed) >= 3 and bytes(seed)[-3] % 8 == 5:
+                seps = 13 + bytes(seed)[-2] % 5       # a cart using (about) all 16 editor tabs
             lines = []
             for tab in range(seps + 1):
                 if tab:
@@ -179,7 +181,10 @@ def gen_spec(seed, avoid=(), missing=False):
         name = t['path'].encode()
         if t['kind'] != 'lua' and want_sel:
             nsep = sum(1 for ln in lines_of(t['code']) if ln.startswith(SEPARATOR))
-            name += b':%d' % (sel_raw % (nsep + 3))
+            if nsep >= 13:
+                name += b':%d' % (nsep + 1 - sel_raw % 5)       # the last tabs and one past them
+            else:
+                name += b':%d' % (sel_raw % (nsep + 3))
         pre, mid, post = ((b'', b' ', b''), (b'  ', b' ', b''), (b'', b' ', b'  '), (b' ', b'   ', b' '),
                           (b'    ', b'  ', b'   '))[form]
         line = pre + b'#include' + mid + name + post
@@ -509,6 +514,8 @@ def labels_for(spec):
         nsep = sum(1 for ln in tl if ln.startswith(SEPARATOR))
         if sel is not None:
             labs.append('tab_selector')
+            if sel >= 14 and nsep >= 14:
+                labs.append('tab_14_or_later_of_many')
             if sel > nsep:
                 labs.append('tab_beyond_last')
             elif sel == nsep:
@@ -612,7 +619,7 @@ REQUIRED = ('includes_0', 'includes_1', 'includes_2', 'includes_3', 'includes_4'
             'include_last_line', 'include_middle', 'target_no_final_newline',
             'line_follows_target_without_final_newline', 'nested_include_verbatim', 'subdir', 'same_target_twice',
             'include_line_padded', 'name_with_dash_dot_digit', 'crlf_target', 'missing_target', 'place_plain',
-            'place_carts_root', 'place_carts_sub')
+            'place_carts_root', 'place_carts_sub', 'tab_14_or_later_of_many')
 
 
 def vacuity(total, tier):
